@@ -555,7 +555,7 @@ package mqtt
 // toOffline: leave the connection; everything pending on it is released.
 //@ func mqtt.(*Client).toOffline
 //@ modifies chanstate(c.writeSem), wclosed(c.readConn), chanstate(c.onlineSig), chanstate(c.offlineSig), chanstate(qat(c.onlineSig, 0)), chanstate(qat(c.offlineSig, 0)), c.readConn, c.bigMessage, c.bufr, c.peek, chanstate(c.pingAck), region("map.map[uint16]mqtt.unorderedCallback"), region("map.len"), region("chan.len.error"), region("chan.head.error"), region("chan.q.error")
-//@ requires writable(c) && sigfull(c) && c.readConn != nil && c.pingAck != nil && !closed(c.pingAck) && cap(c.pingAck) == 1
+//@ requires writable(c) && sigfull(c) && c.readConn != nil && c.pingAck != nil && !closed(c.pingAck) && cap(c.pingAck) == 1 && c.perPacketID != nil
 //@ at[C10] recv writeSem#1: assert wclosed(c.readConn)
 //@ ensures[C07] c.pendingAck == old(c.pendingAck) && forall(k, 0, len(c.pendingAck), c.pendingAck[k] == old(c.pendingAck[k]))
 //@ ensures[C10] !closed(c.writeSem) ==> wclosed(old(c.readConn))
